@@ -113,6 +113,10 @@ def plan(tier, seed):
     for cap in (1, 2, 3) + ((4,) if tier == "thorough" else ()):
         for policy in ("min", "max"):
             shards.append((policy, cap, "re2"))
+    # the policy given through the public setter after construction (constructed with the other one)
+    for cap, m in ((2, 2), (3, 3), (4, 2)):
+        for policy in ("min", "max"):
+            shards.append((policy, cap, m, "setter"))
     # one long deterministic history on a heap of 300 elements (identifiers beyond 256)
     for policy in ("min", "max"):
         shards.append(("bigheap", policy, 300))
@@ -129,6 +133,20 @@ def plan(tier, seed):
 
 def warm():
     import opfython.core.heap  # noqa
+
+
+def heap_class(via_setter):
+    """The library's Heap, or a factory that constructs it with the OTHER policy and then assigns
+    the wanted one through the public `policy` property (on the still empty heap)."""
+    from opfython.core.heap import Heap
+    if not via_setter:
+        return Heap
+
+    def make(size, policy):
+        h = Heap(size, "max" if policy == "min" else "min")
+        h.policy = policy
+        return h
+    return make
 
 
 # --------------------------------------------------------------------------
@@ -478,6 +496,13 @@ def run(shard, seed):
         return run_deep(shard, seed)
     if shard[0] == "bigheap":
         return run_big(shard, seed)
+    if len(shard) == 4:
+        return _run_bfs(heap_class(True), c, shard[:3], seed)
+    return _run_bfs(Heap, c, shard, seed)
+
+
+def _run_bfs(Heap, c, shard, seed):
+    via_setter = Heap is not heap_class(False)
     policy, size, m = shard
     keys = key_table(seed, m)
     REINSERT[0] = (m == "re2")
@@ -512,6 +537,9 @@ def run(shard, seed):
             break
     res.evaluations = res.transitions
     res.traces = res.transitions  # every transition compared with the reference
+    if via_setter:
+        for v in res.violations:
+            v["program"] = dict(v["program"], via_setter=True)
     return res
 
 
@@ -521,6 +549,7 @@ def replay(case):
     prog = case["program"]
     policy, size = prog["policy"], prog["size"]
     ops = [tuple(o) for o in prog["ops"]]
+    Heap = heap_class(bool(prog.get("via_setter")))
     h = Heap(size, policy)
     ref = ((WHITE,) * size, (None,) * size)
     for i, op in enumerate(ops):
